@@ -43,6 +43,8 @@ class Tree:
         self.wrap = wrap            # the config's wrap text (None, str or list of non-empty lines)
         self.implicit_used = False
         self.anon_values = 0
+        self.snippets = {}          # user snippets the config defines (explicit mode only)
+        self.uses_snippets = False
         self.budget = rng.randint(1, max_nodes)
         self.values = 0
         self.fields_written = 0
@@ -80,7 +82,16 @@ class Tree:
             node['cls'].append(pick(rng, PLAIN_CLASSES))
         if not node['name'] and not node['cls']:
             node['cls'].append('c')
-        if self.explicit and maybe(rng, 0.25):
+        if self.explicit and self.snippets and node['name'] and maybe(rng, 0.12):
+            # an element that is a user snippet with field-bearing text / attributes of its own
+            node['name'] = pick(rng, sorted(self.snippets))
+            node['snippet'] = True
+            self.uses_snippets = True
+        if node['name'] and not node['cls'] and maybe(rng, 0.08):
+            # an explicitly empty primary attribute: a tabstop in the HTML formatter, not output at all
+            # (pug/slim/haml write id and class only when they have a value)
+            node['attrs'].append((pick(rng, ['class', 'id']), pick(rng, ['empty', 'emptyq']), None))
+        elif self.explicit and maybe(rng, 0.25):
             # id / class values with explicit fields: they are output once more by comments, and
             # together by the indent formatters (primary attributes)
             which = pick(rng, ['id', 'class', 'both', 'both'])
@@ -262,7 +273,10 @@ def count_tabstops(items, mult=1, k=1):
             n += count_tabstops(it['children'], m, k)
             continue
         for _name, kind, _val in it['attrs']:
-            if kind in ('empty', 'emptyq') and _name not in BOOLEANS:
+            if kind in ('empty', 'emptyq') and _name in ('class', 'id'):
+                if not INDENT_FORMATTER:
+                    n += m
+            elif kind in ('empty', 'emptyq') and _name not in BOOLEANS:
                 n += m
             elif kind == 'fields' and ANON.match(_val):
                 n += m
@@ -273,6 +287,50 @@ def count_tabstops(items, mult=1, k=1):
             n += m
         n += count_tabstops(it['children'], m, k)
     return n
+
+
+NAMED = __import__('re').compile(r'\$\{\d+:(v\d+i\d+[a-z])\}')
+SNIPPET_FIELDS = {
+    # user snippets of the explicit mode: name -> (definition, placeholders in its attributes, placeholders in its text)
+    'sfa': ('h3{${1:v901i1a} ${2:v901i2b}}', [], ['v901i1a', 'v901i2b'], '${1:v901i1a} ${2:v901i2b}'),
+    'sfb': ('h4[title="${1:v902i1a}"]{${0:v903i0a}}', ['v902i1a'], ['v903i0a'], '${0:v903i0a}'),
+    'sfc': ('h5[title="${2:v904i2a} ${1:v904i1b}"]', ['v904i2a', 'v904i1b'], [], ''),
+}
+BEM_ON = False
+WRAP_ON = False
+
+
+def expected_named(items, out=None):
+    """Placeholders of explicit fields that must reach output.field at least once: every named field
+    written in the abbreviation (or in the definition of a snippet it uses), except the first field of a
+    text that the HTML formatter replaces by the children, the text of a snippet that the abbreviation
+    overrides, and class values that BEM rewrites"""
+    out = set() if out is None else out
+    for it in items:
+        if it.get('group'):
+            expected_named(it['children'], out)
+            continue
+        for _name, kind, val in it['attrs']:
+            if kind == 'fields' and not (BEM_ON and _name == 'class'):
+                out.update(NAMED.findall(val))
+        text_fields = NAMED.findall(it['text'][1]) if (it['text'] and it['text'][0] == 'fields') else []
+        if it.get('snippet'):
+            _def, attr_ph, text_ph, _txt = SNIPPET_FIELDS[it['name']]
+            out.update(attr_ph)
+            if not it['text'] and not WRAP_ON:
+                # (wrap text that lands in a snippet element overrides the snippet's own text, like text
+                # written in the abbreviation does; with wrap text on, nothing is expected of snippet texts)
+                text_fields = list(text_ph)
+        if text_fields:
+            if it['children'] and not INDENT_FORMATTER:
+                # is the very first field of the text a named one? then it is the one replaced
+                first = __import__('re').search(r'\$\{\d+(:[^}]*)?\}', it['text'][1] if it['text'] else SNIPPET_FIELDS[it['name']][3])
+                if first and first.group(1):
+                    dropped = first.group(1)[1:]
+                    text_fields = [t for t in text_fields if t != dropped]
+            out.update(text_fields)
+        expected_named(it['children'], out)
+    return out
 
 
 def used_names(items, names=None, attrs=None):
@@ -299,14 +357,21 @@ def gen_markup_counted(rng, wrap=None):
     return print_items(items), counted_meta(items, wrap)
 
 
-def gen_markup_explicit(rng, wrap=None):
+def gen_markup_explicit(rng, wrap=None, snippets=None):
     t = Tree(rng, explicit=True, allow_text=True, wrap=wrap)
+    t.snippets = snippets or {}
     items = t.root()
     abbr = print_items(items)
-    if t.fields_written == 0:
+    if t.fields_written == 0 and not t.uses_snippets:
         return abbr, counted_meta(items, wrap)
     meta = counted_meta(items, wrap)
-    return abbr, {'mode': 'explicit', 'expect_anon': meta['expect'], 'names': meta['names'], 'attrs': meta['attrs'], 'wrap': wrap}
+    out = {'mode': 'explicit', 'names': meta['names'], 'attrs': meta['attrs'], 'wrap': wrap,
+           'expect_named': sorted(expected_named(items))}
+    if not t.uses_snippets:
+        out['expect_anon'] = meta['expect']
+    else:
+        out['names'] = [n for n in out['names'] if n not in SNIPPET_FIELDS]
+    return abbr, out
 
 
 STYLE_ABBRS = ['m10', 'p10-20', 'bd1-s#fc0', 'bd', 'c', 'bg', 'f', 'trs', 'anim', 'bxsh', '@kf', '@m', '@f', '@ff', 'gt', 'trf',
@@ -362,6 +427,9 @@ def gen_c13(run_seed):
                                  ('output.booleanAttributes', [['foo', 'role'], ['data-a'], []], 0.2)):
                 if maybe(rng, p):
                     opts[key] = pick(rng, vals)
+            if family in ('html', 'indent') and maybe(rng, 0.3):
+                # user snippets whose definitions carry explicit fields of their own
+                spec['snippets'] = {k: v[0] for k, v in SNIPPET_FIELDS.items()}
             if family in ('html', 'indent') and maybe(rng, 0.25):
                 # wrap text (plain, non-empty lines): goes into the deepest last element
                 spec['text'] = pick(rng, [['foo'], ['foo', 'bar baz'], ['one', 'two', 'x < y'], 'single', 'two words', 'l1  \nl2', ['a \nb', 'c']])
@@ -403,13 +471,18 @@ def gen_c13(run_seed):
                                                  'text': bool(spec.get('text')), 'user_snippets': sorted(spec.get('snippets') or {})})
             op['c13'] = {'mode': 'positions'}
         else:
-            global BOOLEANS, INDENT_FORMATTER
+            global BOOLEANS, INDENT_FORMATTER, BEM_ON, WRAP_ON
+            WRAP_ON = spec.get('text') is not None
             BOOLEANS = tuple(spec['options'].get('output.booleanAttributes') or ())
             INDENT_FORMATTER = spec.get('syntax') in INDENT_SYNTAXES
+            BEM_ON = bool(spec['options'].get('bem.enabled'))
             if maybe(rng, 0.5):
                 op['abbr'], op['c13'] = gen_markup_counted(rng, spec.get('text'))
             else:
-                op['abbr'], op['c13'] = gen_markup_explicit(rng, spec.get('text'))
+                op['abbr'], op['c13'] = gen_markup_explicit(rng, spec.get('text'), spec.get('snippets'))
+            op['c13']['bem'] = BEM_ON
+            op['c13']['snippets'] = sorted(spec.get('snippets') or {})
+            BEM_ON = False
             op['c13']['booleans'] = list(BOOLEANS)
             op['c13']['formatter'] = 'indent' if INDENT_FORMATTER else 'html'
             BOOLEANS = ()
